@@ -45,6 +45,11 @@ theorem carrier_independent_partial (k1 k2 : NumKind) (a : Nat) (b : Int) (e : B
     ∧ nativeMin k1 ((a : Int) : Rat) (b : Rat) e = nativeMin k2 ((a : Int) : Rat) (b : Rat) e :=
   ⟨Values.carrier_independent_max k1 k2 a b e, Values.carrier_independent_min k1 k2 a b e⟩
 
+/-- … and the same divisibility answer through every signed and unsigned kind, for a positive integral factor -/
+theorem carrier_independent_mul_partial (n m : Nat) (a : Nat) (b : Int) (hb : 0 < b) :
+    nativeMulInt (.int n) ((a : Int) : Rat) (b : Rat) = nativeMulInt (.uint m) ((a : Int) : Rat) (b : Rat) := by
+  rw [native_int_mul_exact n (a : Int) b, native_uint_mul_exact m a b hb]
+
 /-! #### the full statement fails for fractional bounds against integer carriers (known finding):
     the bound is truncated toward zero before the comparison -/
 
